@@ -74,15 +74,18 @@ def observe(cfg):
     out = {"cfg": cfg, "err": "", "rec": [], "flags": [], "batch": False}
     # ---- reference: the step's writes on a controller-free copy, fresh power flow ----
     ref = prepare(cfg)
+    opt = {"neglect_open_switch_branches": True} if cfg.get("nosb") else {}
+    rev = cfg["form"] == "logvar_rev"
     refvals = {o: [] for o in O}
     ref_ok = True
     for t in range(STEPS):
         for (e, v) in W:
             ref[e].at[0, v] = PROFILE[(e, v)][t]
         try:
-            pp.runpp(ref, tolerance_mva=1e-10)
+            pp.runpp(ref, tolerance_mva=1e-10, **opt)
             for (tab, var) in O:
-                refvals[(tab, var)].append(rows(ref[tab], var))
+                vals = rows(ref[tab], var)
+                refvals[(tab, var)].append(vals[::-1] if rev else vals)
         except Exception:  # noqa
             ref_ok = False
             break
@@ -96,7 +99,10 @@ def observe(cfg):
     else:
         ow = OutputWriter(net, time_steps=range(STEPS), output_path=None, log_variables=[])
         for (tab, var) in O:
-            ow.log_variable(tab, var)
+            if rev:
+                ow.log_variable(tab, var, index=list(net[tab[4:]].index)[::-1])
+            else:
+                ow.log_variable(tab, var)
     for k in range(len(W)):
         r = net.controller.recycle.iat[k]
         out["flags"].append({"isdict": isinstance(r, dict), "bus_pq": bool(isinstance(r, dict) and r.get("bus_pq")),
@@ -111,7 +117,7 @@ def observe(cfg):
         return r
     rts.get_recycle_settings = spy
     try:
-        run_timeseries(net, time_steps=range(STEPS), verbose=False, tolerance_mva=1e-10)
+        run_timeseries(net, time_steps=range(STEPS), verbose=False, tolerance_mva=1e-10, **opt)
     except Exception as e:  # noqa
         out["err"] = type(e).__name__
     finally:
@@ -134,7 +140,10 @@ def key_of(name, c):
     cfg = c["cfg"]
     els = sorted({w[0] for w in cfg["W"]})
     tabs = sorted({o[0] for o in cfg["O"]})
-    return "C12|%s|write=%s|out=%s|%s|%s" % (name, "+".join(els), "+".join(tabs), cfg["form"], cfg["sw"])
+    if c.get("batch") and cfg.get("nosb"):
+        # structural class: the batch reader together with neglect_open_switch_branches (independent of what is written / read)
+        return "C12|%s|batch_read+neglect_open_switch_branches" % name
+    return "C12|%s|write=%s|out=%s|%s|%s%s" % (name, "+".join(els), "+".join(tabs), cfg["form"], cfg["sw"], "|nosb" if cfg.get("nosb") else "")
 
 
 def run(tier, seed, replay=None):
@@ -184,8 +193,8 @@ def run(tier, seed, replay=None):
         "traces_validated_against_impl": len(usable), "evaluations": len(cases), "distinct_nontrivial": nontriv,
         "exhaustive": False,
         "rule": "configurations of Recycle.tla: 1-2 ConstControl targets of 14 (element, variable) pairs x requested result "
-                "variables (12) x request form (constructor 2-tuples / log_variable) x switch scenario (none / open transformer "
-                "switch / open line switch); all single-target single-output configurations plus a seeded sample of the rest; "
+                "variables (12) x request form (constructor 2-tuples / log_variable / log_variable with a reversed index list) x switch "
+                "scenario (none / open transformer switch / open line switch) x neglect_open_switch_branches; all single-target single-output configurations plus a seeded sample of the rest; "
                 "non-trivial = the recorded variable changes over the three steps",
         "reference_not_converged": len(cases) - len(usable),
         "batch_read_cases": sum(1 for c in usable if c["batch"]),
